@@ -157,6 +157,7 @@ def run(R):
     r12(R)
     import c01
     c01.seen_scope(R, "C02-R13")
+    r14(R)
 
 
 def r1(R):
@@ -834,3 +835,37 @@ def _feeding_calls(b, l, at_bb, depth=0, seen=None):
             for q, k in F.rv_places(d[3]):
                 out += _feeding_calls(b, q["l"], at_bb, depth + 1, seen)
     return out
+
+
+def r14(R):
+    """every candidate of a node is built for that node"""
+    prog = R.prog
+    R.rule("C02-R14", "a candidate implements its own node: every plan the optimizer offers for a logical node is produced in that node's arm by a "
+                      "constructor of the physical algebra (or a chooser over such constructions) - never the plan of a child handed on as it is. "
+                      "A wrapper node (GRAPH, projection, filter, subquery) changes what its input means; offering the bare input next to the wrapped "
+                      "one lets the cost model decide between two *different* queries, so the answer depends on the statistics")
+    b = R.body("C02-R14", "Streamertail::find_best_plan_recursive", crate="kolibrie")
+    if b is None:
+        return
+    R.saw(b)
+    n = 0
+    for x in prog.family(b.key):
+        for c in x.calls():
+            if c.name() != "push" or len(c.args) != 2 or "PhysicalOperator" not in x.local_ty((F.op_place(c.args[1]) or {"l": 0})["l"]):
+                continue
+            arm = [cd.get("variant") for cd in G.conditions(x, c.bb) if cd.get("kind") == "variant" and "LogicalOperator" in str(cd.get("adt"))]
+            n += 1
+            o = x.origin(c.args[1], stop_named=False)
+            built = o[0] == "rv" and o[1]["rv"] == "aggregate"
+            if o[0] == "call":
+                k = o[1].key or ""
+                cal = prog.bodies.get(k)
+                # a constructor / chooser: a function of the physical algebra or the optimizer that is not the recursive search itself (nor a clone of its result)
+                built = cal is not None and cal.key != b.key and o[1].name() not in ("clone", "unwrap", "expect", "deref", "take", "into", "to_owned")
+            if o[0] == "place":
+                built = False
+            R.ob("C02-R14", "built:%s:%d" % ((arm or ["?"])[0], n), "the candidate offered in the %s arm is constructed there (it comes from: %s)"
+                 % ((arm or ["?"])[0], o[1].name() if o[0] == "call" else (o[1].get("rv") if o[0] == "rv" else "a variable holding a sub-plan")), built, where=x.where(c.ln),
+                 detail=None if built else "the plan of the node's input is offered as a plan of the node: with fresh statistics `GRAPH ?h { .. }` inside another "
+                 "GRAPH is executed without its wrapper and ?h is pinned to the outer graph")
+    R.floor("C02-R14", "candidates offered by the optimizer", n, 10)
